@@ -32,8 +32,8 @@ PROPERTY = {
     "rule": "one case = one architecture / mode, one chunk of 100 byte strings and one group of failure classes (the classes of one known finding of that architecture, or every other class)",
     "trusted_base": ["GNU objdump 2.40 and llvm-mc 14 as references (x86, Thumb: one process per instruction; fixed-width architectures: one process per chunk and configuration, one word per line, every word accounted for); CPython executes the real decoders; the "
                      "sampling, the normalisation of the reference output and the comparison are written in props/C17.py"],
-    "assumptions": ["seeded family: 12 architectures / modes x 8 chunks x 100 strings quick (x 100 chunks thorough)",
-                    "x86 curated family: every vector of test/arch/x86/arch.py alone and behind the prefixes 67, 2e, 64, 67 64 (address-size and segment prefixes: they do not interact with mandatory SSE prefixes; padded with a fixed byte pattern)",
+    "assumptions": ["seeded family: 12 architectures / modes x 4 chunks x 100 strings quick (x 100 chunks thorough)",
+                    "x86 curated family: every vector of test/arch/x86/arch.py alone and behind the prefixes 67, 2e, 64, 67 64 (address-size and segment prefixes: they do not interact with mandatory SSE prefixes; padded with a fixed byte pattern); quick: every fourth group of 10 vectors",
                     "a string the decoder refuses is not a case; reference gaps listed in the explanation are not cases"],
 }
 
@@ -213,13 +213,13 @@ class RefCases(BoundedContract):
 
     def cases(self):
         from props import C15
-        n = 8 if self.tier == "quick" else 100
+        n = 4 if self.tier == "quick" else 100
         out = []
         for a in range(len(ARCHS)):
             fam = family(ARCHS[a][0])
             gids = sorted(g for g, (f, _) in known_groups("C17").items() if f == fam) + [""]
             ncur = (len(C15.curated(ARCHS[a][0])) + C15.CUR_CHUNK - 1) // C15.CUR_CHUNK if fam == "x86" else 0
-            ks = list(range(n)) + [("cur", j) for j in range(ncur)]
+            ks = list(range(n)) + [("cur", j) for j in range(ncur) if self.tier != "quick" or j % 4 == 0]
             out += [(a, k, g) for k in ks for g in gids]
         return out
 
